@@ -1,17 +1,18 @@
 """C06 — solving terminates with an answer: kernel obligations (3-opt index ranges in both arithmetic modes,
-feasibility precondition of the covering circulation)."""
+feasibility preconditions of the covering circulation: overflow depot large enough, lower bound <= upper bound on every arc)."""
 import z3, itertools
 from ..core import *
 from .. import models as M, netbuild as NB, replay
 from ..harness import JobCtx
 from .C17 import job_network_new            # overflow depot can host every vehicle (feasibility precondition of the circulation)
+from .C14 import job_construction          # arc bounds of the covering circulation (lower <= upper on every arc: otherwise network_simplex(..).unwrap() panics)
 
 PROPERTY = 'C06'
 MIR = [('rapid_time', 'on'), ('model', 'on'), ('solution', 'on'), ('solver', 'on'), ('solver', 'off'), ('solution', 'off'), ('model', 'off'), ('rapid_time', 'off')]
 ASSUMPTIONS = ['decomposed: only the kernels named in DESIGN.md section 3/C06 are claimed; termination of rapid_solve\'s local search loops and of rs_graph\'s network simplex is trusted',
                'TransitionCycle::three_opt is replaced by a recorder of its index triple in the index-range obligation (its own arithmetic is covered by C15)',
                'rayon / Box<dyn Iterator> are modelled as sequential lazy iterators']
-BOUNDS = {'quick': '3-opt neighbourhood: cycle lengths 0..5 in the overflow-checked MIR and in the wrapping (release) MIR, loop budget 64 outer iterations; feasibility: as C17 network_new quick',
+BOUNDS = {'quick': '3-opt neighbourhood: cycle lengths 0..5 in the overflow-checked MIR and in the wrapping (release) MIR, loop budget 64 outer iterations; feasibility: as C17 network_new quick, arc bounds of the flow network as C14 construction with 1 trip',
           'thorough': 'cycle lengths 0..8; feasibility: as C17 thorough'}
 OUTSIDE = 'termination of the local searches (rapid_solve) and of network_simplex; whole-pipeline panic freedom beyond the kernels'
 REQUIRED_COVERS = {'quick': ['len0', 'len1', 'len2', 'len3'], 'thorough': ['len0', 'len1', 'len2', 'len3']}
@@ -23,6 +24,7 @@ def jobs(tier, seed):
             js.append(dict(name='three_opt_ranges len=%d checks=%s' % (n, mode), func='job_ranges', kwargs=dict(n=n, mode=mode)))
     js.append(dict(name='circulation_feasible', func='job_network_new', kwargs=dict(tier=tier, trips=2, maint=1)))
     js.append(dict(name='circulation_feasible seats<capacity', func='job_network_new', kwargs=dict(tier=tier, trips=2, maint=0, caps=(7, 3))))
+    for nt, allot in ((1, 0), (1, 1)): js.append(dict(name='circulation bounds %d trips, slot allotted=%d' % (nt, allot), func='job_construction', kwargs=dict(tier=tier, ntrips=nt, allot=allot)))
     if tier == 'thorough': js.append(dict(name='circulation_feasible_2types', func='job_network_new', kwargs=dict(tier=tier, trips=3, maint=1, two_types=True)))
     return js
 
@@ -77,6 +79,9 @@ TINY = {"vehicleTypes": [{"id": "vt0", "capacity": 5, "seats": 7}], "locations":
 
 def confirm(c):
     from . import C17
+    if c.get('job_func') == 'job_construction':
+        from ..harness import confirm_on_other_flavour
+        return confirm_on_other_flavour('mirsym.obligations.C14', 'job_construction', c.get('job_kwargs', {}), c['clause'])
     if not isinstance(c.get('expect'), dict) or c['expect'].get('kind') != 'tsp': return C17.confirm(c)
     sc = c.get('scenario')
     if not sc: return False, 'no native scenario for this cycle length'
